@@ -69,6 +69,12 @@ def cases(tier, seed):
                     for slack in (0, 1, 3):
                         yield {'k': 'overflow', 'api': api, 'indextype': it, 'limit': limit, 'atom': list(atom),
                                'pos': pos, 'slack': slack, 'numtype': 'uint8' if limit > 1000 else 'int16', 'bo': 'little'}
+                    if api == 'iterappend' and pos == 0:
+                        # the handle was made with a relative path and the producer of the items has changed the
+                        # working directory while it is being consumed (nothing completes, so nothing but the
+                        # roll-back has to reach the files)
+                        yield {'k': 'overflow', 'api': api, 'indextype': it, 'limit': limit, 'atom': list(atom),
+                               'pos': 0, 'slack': 0, 'numtype': 'int16', 'bo': 'little', 'producer_chdir': True}
     for target in ('values', 'indices'):
         for atom in ((), (4,)) if target == 'values' else ((),):
             for nitems in (1, 2, 3):
@@ -198,6 +204,8 @@ def run_logic(case, env, res, d):
 
 
 def run_overflow(case, env, res, d):
+    if case.get('producer_chdir'):
+        return run_overflow_chdir(case, env, res, d)
     D = env.darr
     dtype, atom = gens.dt(case['numtype'], case['bo']), tuple(case['atom'])
     path = d / 'ra'
@@ -223,6 +231,52 @@ def run_overflow(case, env, res, d):
         res.fail(f'overflow:{symptom}',
                  f'{case["api"]}: item {pos} makes the values length exceed {limit} ({case["indextype"]} indices): {msg} '
                  f'(raised: {type(raised).__name__ if raised else None})', **case)
+
+
+def run_overflow_chdir(case, env, res, d):
+    D = env.darr
+    dtype, atom = gens.dt(case['numtype'], case['bo']), tuple(case['atom'])
+    limit = case['limit']
+    first = good_item(dtype, atom, limit - 10, 1)
+    items = [good_item(dtype, atom, 20, 77), good_item(dtype, atom, 1, 78)]
+    (d / 'work').mkdir()
+    (d / 'inputs').mkdir()
+
+    def child():
+        os.chdir(d / 'work')
+        ra = D.asraggedarray('ra', [first.copy()], dtype=dtype, indextype=case['indextype'], accessmode='r+')
+
+        def producer():
+            here = os.getcwd()
+            os.chdir(d / 'inputs')
+            try:
+                yield from items
+            finally:
+                os.chdir(here)
+        g = producer()
+        raised = None
+        try:
+            ra.iterappend(g)
+        except Exception as e:
+            raised = f'{type(e).__name__}: {str(e)[:160]}'
+        finally:
+            g.close()
+            os.chdir(d / 'work')
+        probs = oracle(D, d / 'work' / 'ra', ra, [first], raised.split(':')[0] if raised else None)
+        return {'raised': raised, 'problems': probs, 'reach': sorted(env.reach)}
+
+    info = run_forked(child, timeout=180, faultlog_dir=str(env.scratch.root))
+    res.count('mon.overflow_faults')
+    if info['status'] != 'ok':
+        res.fail(f'overflow:chdir-producer:child-{info["status"]}', f'child for {case}: {info["status"]} {info["trace"][-300:]}', **case)
+        return
+    r = info['result']
+    env.reach.update(r['reach'])
+    res.count('mon.failure_oracle')
+    for symptom, msg in r['problems']:
+        res.fail(f'overflow:chdir-producer:{symptom}',
+                 f'iterappend through a relative-path handle while the producer has changed the working directory; first '
+                 f'item exceeds {limit} ({case["indextype"]} indices): {msg} (raised: {r["raised"]})', **case)
 
 
 def run_write(case, env, res, d):
